@@ -1,8 +1,12 @@
 # jax2onnx/plugins/jax/lax/round.py
 
 
+from typing import Any
+
 from jax2onnx._compat.jax import JaxprEqn
 import jax
+import numpy as np
+import onnx_ir as ir
 
 from jax2onnx.converter.typing_support import LoweringContextProtocol
 from jax2onnx.plugins._post_check_onnx_graph import expect_graph as EG
@@ -46,7 +50,38 @@ class RoundPlugin(PrimitiveLeafPlugin):
         if getattr(out_spec, "producer", None) is not None:
             desired_name = ctx.fresh_name("round_out")
 
-        result = ctx.builder.Round(x_val, _outputs=[desired_name])
+        method = eqn.params.get("rounding_method", jax.lax.RoundingMethod.AWAY_FROM_ZERO)
+        away_from_zero = int(getattr(method, "value", method)) == int(
+            jax.lax.RoundingMethod.AWAY_FROM_ZERO.value
+        )
+        if not away_from_zero:
+            result = ctx.builder.Round(x_val, _outputs=[desired_name])
+            result.type = out_spec.type
+            result.shape = out_spec.shape
+            ctx.bind_value_for_var(out_var, result)
+            return
+
+        # ONNX Round rounds halves to even; lax.round defaults to rounding halves
+        # away from zero.  Correct exact ties: x + sign(x) * 0.5.
+        def _like_x(value: Any) -> Any:
+            value.type = out_spec.type
+            value.shape = out_spec.shape
+            return value
+
+        np_dtype = np.dtype(getattr(getattr(x_var, "aval", None), "dtype", np.float32))
+        half = ctx.bind_const_for_var(object(), np.asarray(0.5, dtype=np_dtype))
+        rounded = _like_x(
+            ctx.builder.Round(x_val, _outputs=[ctx.fresh_name("round_even")])
+        )
+        diff = _like_x(ctx.builder.Sub(x_val, rounded, _outputs=[ctx.fresh_name("round_diff")]))
+        abs_diff = _like_x(ctx.builder.Abs(diff, _outputs=[ctx.fresh_name("round_absdiff")]))
+        is_tie = ctx.builder.Equal(abs_diff, half, _outputs=[ctx.fresh_name("round_is_tie")])
+        is_tie.type = ir.TensorType(ir.DataType.BOOL)
+        is_tie.shape = out_spec.shape
+        sign = _like_x(ctx.builder.Sign(x_val, _outputs=[ctx.fresh_name("round_sign")]))
+        step = _like_x(ctx.builder.Mul(sign, half, _outputs=[ctx.fresh_name("round_step")]))
+        away = _like_x(ctx.builder.Add(x_val, step, _outputs=[ctx.fresh_name("round_away")]))
+        result = ctx.builder.Where(is_tie, away, rounded, _outputs=[desired_name])
         result.type = out_spec.type
         result.shape = out_spec.shape
         ctx.bind_value_for_var(out_var, result)
